@@ -101,6 +101,12 @@ def check(rep):
     # zero-weight families (the finding's trigger) and user-written connector descriptors
     texts += [("zero_weights", "C{[>][<|0|]CC[>|0|], [<|0|]C(N)C[>|0|]; [<][H], [>]O [<]}|gauss(60,5)|C"),
               ("zero_weights", "C{[$][$|0|]CC[$|0|]; [$|0|][H] [$]}|gauss(60,5)|C")]
+    # consecutive stochastic objects whose second object has end groups of the entering orientation (inter-object transition denominators)
+    texts += [("stoch_stoch", t) for t in [
+        "{[][<]C(N)C[>]; [<][H][>]}|uniform(100, 200)|{[<][<]C(=O)C[>]; [>][H][]}|uniform(100, 200)|",
+        "[H]{[<][<]C(N)C[>] [>]}|gauss(100, 20)|{[<][<]C(=O)C[>], [<|3.0|]CC(F)[>]; [>|2.0|][H], [<]F[]}|gauss(100, 20)|",
+        "C{[$][$]CC[$]; [$]O[$]}|gauss(80, 5)|{[$][$|2|]C(C)C[$], [$]NC[$]; [$|3|]F, [$][H][$]}|gauss(90, 9)|{[$][$]OC[$]; [$]Cl[$]}|uniform(30, 90)|N",
+        "{[][>]CC[<], [>|2|]C(C)C[<]; [>]N, [<]O[<]}|poisson(80)|{[>][>|0.5|]SC[<], [>]CS[<|4|]; [>]F, [<][H], [<|2|]C[]}|gauss(70, 7)|"]]
     evaluations = nodes = edges = 0
     distinct = set()
     for arche, text in texts:
